@@ -319,6 +319,10 @@ E2E_MOLS = {
     "CH3Cl-asym": ([6, 17, 1, 1, 1], [[0.0, 0.0, 0.0], [0.0, 0.0, 3.4], [1.9, 0.0, -0.7], [-1.0, 1.7, -0.7], [-1.0, -1.6, -0.8]]),
     "SO2": ([16, 8, 8], [[0.0, 0.0, 0.0], [0.0, 2.3, 1.4], [0.0, -2.3, 1.4]]),
     "LiH-far": ([3, 1], [[0.0, 0.0, 0.0], [0.3, 0.2, 6.0]]),
+    # elements without a tabulated Bragg radius (the default atom-in-molecule weights take the fallback branch of the radius
+    # lookup; added after seeded change C07-L, which left nan radii there and halved every weight)
+    "HeH": ([2, 1], [[0.0, 0.0, 0.0], [0.0, 0.1, 1.46]]),
+    "NeH": ([1, 10], [[0.0, 0.0, 0.0], [0.1, 0.0, 1.9]]),
 }
 EXPONENTS = (0.3, 1.0, 3.0, 10.0, 30.0)
 
@@ -460,6 +464,14 @@ def forms(ctx):
     table.append(("from_pruned:ragged-reversed-single-degree", lambda: MolGrid.from_pruned(nums, coords, 1.2, rag[::-1], np.int64(5), rgrid=rg, aim_weights=B(), rotate=0),
                   lambda: [AtomGrid.from_pruned(rg, 1.2, r_sectors=rag[::-1][i], d_sectors=[5] * (len(rag[::-1][i]) + 1), center=coords[i], rotate=0)
                            for i in range(n)], 0))
+    # degrees AND sizes given together (documented: the sizes win) -- the same arguments on both sides
+    ss2 = [14, 6, 26, 50]      # not the sizes of the degrees in ds
+    table.append(("from_pruned:degree-lists-and-size-lists", lambda: MolGrid.from_pruned(nums, coords, 1.2, [rs] * n, [ds] * n, s_sectors=[ss2] * n, rgrid=rg, aim_weights=B(), rotate=0),
+                  lambda: [AtomGrid.from_pruned(rg, 1.2, r_sectors=rs, d_sectors=ds, s_sectors=ss2, center=coords[i], rotate=0) for i in range(n)], 0))
+    table.append(("from_pruned:degree-lists-and-single-size", lambda: MolGrid.from_pruned(nums, coords, 1.2, [rs] * n, [ds] * n, s_sectors=26, rgrid=rg, aim_weights=B(), rotate=0),
+                  lambda: [AtomGrid.from_pruned(rg, 1.2, r_sectors=rs, d_sectors=ds, s_sectors=[26] * 4, center=coords[i], rotate=0) for i in range(n)], 0))
+    table.append(("from_pruned:single-degree-and-size-lists", lambda: MolGrid.from_pruned(nums, coords, 1.2, [rs] * n, 7, s_sectors=[ss2] * n, rgrid=rg, aim_weights=B(), rotate=0),
+                  lambda: [AtomGrid.from_pruned(rg, 1.2, r_sectors=rs, d_sectors=[7] * 4, s_sectors=ss2, center=coords[i], rotate=0) for i in range(n)], 0))
     for name, make, hand_fn, rot in table:
         ctx.count(section="argument-forms")
         case = {"route": "forms", "form": name}
